@@ -33,6 +33,10 @@ type tr struct {
 	userFuncs   map[string]string      // already translated functions -> result type
 	singleField map[string]string      // single-field structs are identified with their field
 	lastParams  []*local
+	consts      map[string]string // package-level constants -> Coq term
+	userExtra   map[string]string // translated functions that take oracle arguments first
+	ptrOpt      bool   // pointers are options (nil = None); field access through a pointer yields the field's zero for nil
+	extraParams string // further binders of the generated definition (oracles the body refers to by name)
 }
 
 type plist struct{ decl, args string }
@@ -58,6 +62,9 @@ func (t *tr) coqTypeA(e ast.Expr) string {
 	case *ast.ArrayType:
 		return "(list " + t.coqTypeA(x.Elt) + ")"
 	case *ast.StarExpr:
+		if t.ptrOpt {
+			return "(option " + t.coqTypeA(x.X) + ")"
+		}
 		return t.coqTypeA(x.X)
 	}
 	return coqType(e)
@@ -121,6 +128,9 @@ func zeroOf(typ string) string {
 	if strings.HasPrefix(typ, "(list") {
 		return "[]"
 	}
+	if strings.HasPrefix(typ, "(option") {
+		return "None"
+	}
 	if typ == "(bytes * bytes)" {
 		return `(b "", b "")`
 	}
@@ -159,8 +169,14 @@ func (t *tr) typeOf(e ast.Expr) string {
 				return l.typ
 			}
 		}
+		if _, ok := t.consts[x.Name]; ok {
+			return "bytes"
+		}
 	case *ast.SelectorExpr:
 		bt := t.typeOf(x.X)
+		if strings.HasPrefix(bt, "(option ") {
+			bt = strings.TrimSuffix(strings.TrimPrefix(bt, "(option "), ")")
+		}
 		if f, ok := t.structs[bt]; ok {
 			return f[x.Sel.Name]
 		}
@@ -170,6 +186,25 @@ func (t *tr) typeOf(e ast.Expr) string {
 			}
 		}
 	case *ast.CallExpr:
+		if exprStr(x.Fun) == "time.Now().UTC" {
+			return "Z"
+		}
+		if exprStr(x.Fun) == "reflect.DeepEqual" {
+			return "bool"
+		}
+		if exprStr(x.Fun) == "strings.Join" {
+			return "bytes"
+		}
+		if inner, ok := x.Fun.(*ast.CallExpr); ok {
+			if id, ok := inner.Fun.(*ast.Ident); ok {
+				if rt, ok := t.userFuncs[id.Name]; ok {
+					return rt
+				}
+			}
+		}
+		if s, ok := x.Fun.(*ast.SelectorExpr); ok && (s.Sel.Name == "After" || s.Sel.Name == "Before" || s.Sel.Name == "Equal") {
+			return "bool"
+		}
 		if id, ok := x.Fun.(*ast.Ident); ok {
 			if rt, ok := t.userFuncs[id.Name]; ok {
 				return rt
@@ -241,6 +276,9 @@ func (t *tr) expr(e ast.Expr) string {
 				return fmt.Sprintf("(ret (%s_%s st))", t.fname, l.name)
 			}
 		}
+		if c, ok := t.consts[x.Name]; ok {
+			return "(ret " + c + ")"
+		}
 		return t.fail(e, "unknown identifier %s", x.Name)
 	case *ast.SelectorExpr:
 		if id, ok := x.X.(*ast.Ident); ok && id.Obj != nil {
@@ -249,6 +287,13 @@ func (t *tr) expr(e ast.Expr) string {
 			}
 		}
 		bt := t.typeOf(x.X)
+		if strings.HasPrefix(bt, "(option ") {
+			in := strings.TrimSuffix(strings.TrimPrefix(bt, "(option "), ")")
+			if fs, ok := t.structs[in]; ok {
+				// Go would panic on a nil receiver; the sources guard every such access (short-circuit &&, ||); the model yields the zero value
+				return fmt.Sprintf("(x <- %s ;; ret (match x with Some v_ => %s_%s v_ | None => %s end))", t.expr(x.X), in, x.Sel.Name, zeroOf(fs[x.Sel.Name]))
+			}
+		}
 		if _, ok := t.structs[bt]; !ok {
 			return t.fail(e, "field access on non-struct type %s", bt)
 		}
@@ -260,6 +305,11 @@ func (t *tr) expr(e ast.Expr) string {
 	case *ast.BinaryExpr:
 		if id, ok := x.Y.(*ast.Ident); ok && id.Name == "nil" && (x.Op == token.EQL || x.Op == token.NEQ) {
 			body := "goerr_is_nil x"
+			if ty := t.typeOf(x.X); strings.HasPrefix(ty, "(option ") {
+				body = "match x with None => true | Some _ => false end"
+			} else if strings.HasPrefix(ty, "(list") {
+				body = "match x with [] => true | _ => false end" // a nil slice and an empty one are not told apart
+			}
 			if x.Op == token.NEQ {
 				body = "negb (" + body + ")"
 			}
@@ -319,13 +369,59 @@ func (t *tr) expr(e ast.Expr) string {
 					binds += fmt.Sprintf("a%d <- %s ;; ", i, t.expr(a))
 					args = append(args, fmt.Sprintf("a%d", i))
 				}
+				if ex := t.userExtra[id.Name]; ex != "" {
+					args = append([]string{ex}, args...)
+				}
 				return fmt.Sprintf("(%s%s %s)", binds, id.Name, strings.Join(args, " "))
+			}
+		}
+		if inner, ok := x.Fun.(*ast.CallExpr); ok && len(x.Args) == 0 {
+			if id, ok := inner.Fun.(*ast.Ident); ok {
+				if _, ok := t.userFuncs[id.Name]; ok {
+					args := []string{}
+					for _, a := range inner.Args {
+						ai, ok := a.(*ast.Ident)
+						if !ok || ai.Obj == nil || t.thunks[ai.Obj] == "" {
+							return t.fail(e, "argument of %s is not a thunk parameter", id.Name)
+						}
+						args = append(args, t.locals[ai.Obj].name)
+					}
+					return fmt.Sprintf("(%s %s)", id.Name, strings.Join(args, " "))
+				}
+			}
+		}
+		if exprStr(x.Fun) == "strings.Join" && len(x.Args) == 2 {
+			if in, ok := x.Args[0].(*ast.CallExpr); ok && exprStr(in.Fun) == "strings.Fields" && len(in.Args) == 1 {
+				if lit, ok := x.Args[1].(*ast.BasicLit); ok && lit.Value == `""` {
+					return fmt.Sprintf("(a0 <- %s ;; ret (go_join_fields a0))", t.expr(in.Args[0]))
+				}
+			}
+		}
+		if exprStr(x.Fun) == "reflect.DeepEqual" && len(x.Args) == 2 {
+			if cl, ok := x.Args[1].(*ast.CompositeLit); ok && len(cl.Elts) == 0 {
+				ty := coqType(cl.Type)
+				if _, ok := t.structs[ty]; ok {
+					return fmt.Sprintf("(x <- %s ;; ret (%s_is_zero x))", t.expr(x.Args[0]), ty)
+				}
+			}
+		}
+		if exprStr(x.Fun) == "time.Now().UTC" && len(x.Args) == 0 {
+			return "(ret go_now)"
+		}
+		if s, ok := x.Fun.(*ast.SelectorExpr); ok && len(x.Args) == 1 && t.typeOf(s.X) == "Z" {
+			switch s.Sel.Name {
+			case "After":
+				return fmt.Sprintf("(x <- %s ;; y <- %s ;; ret (Z.ltb y x))", t.expr(s.X), t.expr(x.Args[0]))
+			case "Before":
+				return fmt.Sprintf("(x <- %s ;; y <- %s ;; ret (Z.ltb x y))", t.expr(s.X), t.expr(x.Args[0]))
+			case "Equal":
+				return fmt.Sprintf("(x <- %s ;; y <- %s ;; ret (Z.eqb x y))", t.expr(s.X), t.expr(x.Args[0]))
 			}
 		}
 		if s, ok := x.Fun.(*ast.SelectorExpr); ok {
 			if id, ok := s.X.(*ast.Ident); ok {
 				q := id.Name + "." + s.Sel.Name
-				if q == "fmt.Errorf" && len(x.Args) == 1 {
+				if q == "fmt.Errorf" && len(x.Args) >= 1 {
 					if lit, ok := x.Args[0].(*ast.BasicLit); ok && lit.Kind == token.STRING {
 						msg, _ := strconv.Unquote(lit.Value)
 						return fmt.Sprintf("(ret (Some (b %s) : goerr))", coqStr(msg))
@@ -370,6 +466,16 @@ func (t *tr) block(stmts []ast.Stmt) string {
 			if l := t.locals[id.Obj]; l != nil && !l.mutable && (len(a.Lhs) == 1 || isBlank(a.Lhs[1])) {
 				return fmt.Sprintf("(%s <- %s ;;\n %s)", l.name, t.expr(a.Rhs[0]), t.block(stmts[1:]))
 			}
+		}
+	}
+	if a, ok := stmts[0].(*ast.AssignStmt); ok && a.Tok == token.DEFINE && len(a.Lhs) == 2 && len(a.Rhs) == 1 && exprStr(a.Rhs[0]) == "time.Parse()" {
+		c := a.Rhs[0].(*ast.CallExpr)
+		i0, ok0 := a.Lhs[0].(*ast.Ident)
+		i1, ok1 := a.Lhs[1].(*ast.Ident)
+		if ok0 && ok1 && len(c.Args) == 2 && t.locals[i0.Obj] != nil && t.locals[i1.Obj] != nil && !t.locals[i0.Obj].mutable && !t.locals[i1.Obj].mutable {
+			// t, err := time.Parse(layout, value): the oracle go_time_parse answers with the instant, or nothing on error
+			return fmt.Sprintf("(a0 <- %s ;; a1 <- %s ;; let p_ := go_time_parse a0 a1 in let %s := match p_ with Some z_ => z_ | None => 0%%Z end in let %s := (match p_ with Some _ => None | None => Some (b \"parsing time\") end : goerr) in\n %s)",
+				t.expr(c.Args[0]), t.expr(c.Args[1]), t.locals[i0.Obj].name, t.locals[i1.Obj].name, t.block(stmts[1:]))
 		}
 	}
 	head := t.stmt(stmts[0])
@@ -492,7 +598,7 @@ func (t *tr) collect(fn *ast.FuncType, recv *ast.FieldList, body *ast.BlockStmt)
 			if ft, ok := f.Type.(*ast.FuncType); ok {
 				rt := "unit"
 				if ft.Results != nil && len(ft.Results.List) == 1 {
-					rt = coqType(ft.Results.List[0].Type)
+					rt = t.coqTypeA(ft.Results.List[0].Type)
 				}
 				t.thunks[n.Obj] = rt
 				ty = "(M " + rt + ")"
@@ -514,6 +620,15 @@ func (t *tr) collect(fn *ast.FuncType, recv *ast.FieldList, body *ast.BlockStmt)
 					}
 				}
 			}()
+			if x.Tok == token.DEFINE && len(x.Lhs) == 2 && len(x.Rhs) == 1 && exprStr(x.Rhs[0]) == "time.Parse()" {
+				if a, ok := x.Lhs[0].(*ast.Ident); ok && a.Obj != nil {
+					t.declare(a.Obj, "Z")
+				}
+				if b, ok := x.Lhs[1].(*ast.Ident); ok && b.Obj != nil {
+					t.declare(b.Obj, "goerr")
+				}
+				return true
+			}
 			if x.Tok == token.DEFINE {
 				for i, l := range x.Lhs {
 					id := l.(*ast.Ident)
@@ -626,6 +741,9 @@ func (t *tr) emitFunc(name string, fn *ast.FuncType, recv *ast.FieldList, body *
 	}
 	if len(mut) == 0 {
 		inits = append(inits, fmt.Sprintf("%s_dummy := tt", name))
+	}
+	if t.extraParams != "" {
+		params = append([]string{t.extraParams}, params...)
 	}
 	fmt.Fprintf(w, "Definition %s %s : M %s :=\n let st := {| %s |} in\n r <- (%s : M (ctl %s_st %s)) ;;\n ret (match r with Ret v => v | _ => %s end).\n",
 		name, strings.Join(params, " "), ret, strings.Join(inits, "; "), t.block(body.List), name, ret, zeroOf(ret))
